@@ -160,6 +160,92 @@ theorem C04_request_model_verdict_ok (hl : List Str) (hc : CanonicalNames hl) (r
   rw [forward_method, forward_contentLength, forward_url, director_path, director_rawPath, director_query, h3, hfind]
   simp
 
+/-- A retried request is exactly what a first attempt at the second backend would have been: nothing
+of the first attempt (base path, target query, `without`, added headers) is carried over. -/
+theorem C04_retry_attempts_independent (hl : List Str) (repl : Str → Str) (u1 u2 : Upstream) (r : Request) :
+    (forwardRetry hl repl u1 u2 r).1 = forward hl repl u1 r ∧
+    (forwardRetry hl repl u1 u2 r).2 = forward hl repl u2 r := ⟨rfl, rfl⟩
+
+/-! ### response side -/
+
+/-- Master statement: for every header name, the value list the client receives is the backend's
+list with hop-by-hop names emptied and the one header_downstream rule aimed at that name applied,
+merged with what the ResponseWriter already held (kept for the skip list, both for `Server`,
+replaced otherwise); `Trailer` announces exactly the backend's announced trailer names. -/
+theorem C04_response_headers_exact (hl sk : List Str) (hc : CanonicalNames hl) (repl : Str → Str) (down : Rules)
+    (pre : Hdr) (res : Response) (hg : Good res.header) (hni : nonInterfering down = true) (k : Str) :
+    (respond hl sk repl down pre res).header.vals k =
+      if res.announced.length > 0 ∧ k = sTrailer then res.announced
+      else expectRespVals hl sk repl down pre res k :=
+  vals_respond hl sk hc repl down pre res hg hni k
+
+/-- The status code is not touched. -/
+theorem C04_status_untouched (hl sk : List Str) (repl : Str → Str) (down : Rules) (pre : Hdr) (res : Response) :
+    (respond hl sk repl down pre res).status = res.status := rfl
+
+/-- End-to-end response headers reach the client intact when the ResponseWriter did not hold that
+name before and no rule is aimed at it. -/
+theorem C04_response_end_to_end_preserved (hl sk : List Str) (hc : CanonicalNames hl) (repl : Str → Str) (down : Rules)
+    (pre : Hdr) (res : Response) (hg : Good res.header) (hni : nonInterfering down = true) (k : Str)
+    (he2e : isHop hl res.header k = false) (hpre : pre.has k = false) (hr : Untargeted down k) (ht : k ≠ sTrailer) :
+    (respond hl sk repl down pre res).header.vals k = res.header.vals k := by
+  rw [vals_respond hl sk hc repl down pre res hg hni]
+  simp only [ht, and_false, if_false]
+  unfold expectRespVals
+  simp only [he2e, hpre, Bool.false_eq_true, if_false]
+  exact ruleEffect_none _ _ _ _ hr
+
+/-- A hop-by-hop response header (on the list, or named on any `Connection` line of the response)
+never reaches the client, whatever its values — unless the ResponseWriter already held that name
+or a rule re-adds it. -/
+theorem C04_response_hop_removed (hl sk : List Str) (hc : CanonicalNames hl) (repl : Str → Str) (down : Rules)
+    (pre : Hdr) (res : Response) (hg : Good res.header) (hni : nonInterfering down = true) (k : Str)
+    (hh : isHop hl res.header k = true) (hpre : pre.has k = false) (hr : Untargeted down k) (ht : k ≠ sTrailer) :
+    (respond hl sk repl down pre res).header.vals k = [] := by
+  rw [vals_respond hl sk hc repl down pre res hg hni]
+  simp only [ht, and_false, if_false]
+  unfold expectRespVals
+  simp only [hh, hpre, if_true, Bool.false_eq_true, if_false]
+  exact ruleEffect_none _ _ _ _ hr
+
+/-- Exactly the configured header_downstream changes: with the ResponseWriter empty, the headers
+with the rules equal the rule effect on the headers without any rule, name by name. -/
+theorem C04_downstream_rules_exact (hl sk : List Str) (hc : CanonicalNames hl) (repl : Str → Str) (down : Rules)
+    (res : Response) (hg : Good res.header) (hni : nonInterfering down = true) (k : Str) (ht : k ≠ sTrailer) :
+    (respond hl sk repl down [] res).header.vals k =
+      ruleEffect repl down k ((respond hl sk repl [] [] res).header.vals k) := by
+  rw [vals_respond hl sk hc repl down [] res hg hni, vals_respond hl sk hc repl [] [] res hg rfl]
+  simp only [ht, and_false, if_false]
+  rfl
+
+theorem sameMembers_self (a : List Str) : sameMembers a a = true := by
+  simp [sameMembers]
+
+/-- The status-and-header part of the judged response predicate: the model's answer always gets
+"ok".  PARTIAL with respect to the whole `verdictResp`: the trailer part (`verdictRespTrailers`:
+announced and unannounced trailers reach the client) has no theorem; it is modelled
+(`shallowCopyTrailers`, `clientTrailers`) and judged on every case of the stream c04.resp. -/
+theorem C04_response_head_model_verdict_ok_partial (hl sk : List Str) (hc : CanonicalNames hl) (repl : Str → Str)
+    (down : Rules) (pre : Hdr) (res : Response) (hg : Good res.header) (hni : nonInterfering down = true) :
+    verdictRespHead hl sk repl down pre res (respond hl sk repl down pre res).status
+      (respond hl sk repl down pre res).header = "ok" := by
+  have hfind : (respKeys hl down pre res (respond hl sk repl down pre res).header).find? (fun k =>
+      if k == sTrailer && res.announced.length > 0 then
+        !sameMembers ((respond hl sk repl down pre res).header.vals k) res.announced
+      else (respond hl sk repl down pre res).header.vals k != expectRespVals hl sk repl down pre res k) = none := by
+    rw [List.find?_eq_none]
+    intro k _
+    rw [vals_respond hl sk hc repl down pre res hg hni k]
+    by_cases hk : k = sTrailer
+    · by_cases ha : res.announced.length > 0
+      · simp [hk, ha, sameMembers_self]
+      · simp [hk, ha]
+    · have : (k == sTrailer) = false := by simp [hk]
+      simp [hk, this]
+  unfold verdictRespHead
+  rw [respond_status, hfind]
+  simp
+
 /-! Non-vacuity: concrete instances of the hypotheses and of the interesting cases. -/
 
 /-- test: `Connection: close` + `Connection: x-secret` (two lines), `Keep-Alive` with an empty first value,
@@ -189,5 +275,33 @@ example :
     o.header.vals sXFF = [[57, 46, 57, 46, 57, 46, 57, 44, 32, 49, 46, 50, 46, 51, 46, 52]] ∧
     o.header.vals [88, 45, 84, 97, 103] = [[116]] ∧
     o.url.path = [47, 98, 97, 115, 101, 47, 97] := by decide
+
+/-- test: a backend response with `Connection: X-Internal` on a second line, `Keep-Alive`, a `Set-Cookie`
+pair and rule `-Server`; the ResponseWriter already holds a Content-Type. -/
+def exampleResponse : Response :=
+  { status := 404,
+    header := [(sConnection, [[99, 108, 111, 115, 101], [88, 45, 73, 110, 116, 101, 114, 110, 97, 108]]),
+               ([88, 45, 73, 110, 116, 101, 114, 110, 97, 108], [[49]]),
+               ([75, 101, 101, 112, 45, 65, 108, 105, 118, 101], [[53]]),
+               ([83, 101, 116, 45, 67, 111, 111, 107, 105, 101], [[97], [98]]),
+               ([67, 111, 110, 116, 101, 110, 116, 45, 84, 121, 112, 101], [[116]]),
+               (sServer, [[115]])],
+    announced := [], trailer := [] }
+
+example : Good exampleResponse.header := by
+  refine ⟨?_, ?_⟩
+  · unfold CanonicalKeys; decide
+  · unfold Hdr.NoEmpty; decide
+/-- test: X-Internal and Keep-Alive are gone, both cookies arrive in order, the ResponseWriter's
+Content-Type wins, Server is removed by the rule, the status is 404 -/
+example :
+    let v := respond hop skip id [([45, 83, 101, 114, 118, 101, 114], [[]])]
+      [([67, 111, 110, 116, 101, 110, 116, 45, 84, 121, 112, 101], [[112]])] exampleResponse
+    v.status = 404 ∧
+    v.header.vals [88, 45, 73, 110, 116, 101, 114, 110, 97, 108] = [] ∧
+    v.header.vals [75, 101, 101, 112, 45, 65, 108, 105, 118, 101] = [] ∧
+    v.header.vals [83, 101, 116, 45, 67, 111, 111, 107, 105, 101] = [[97], [98]] ∧
+    v.header.vals [67, 111, 110, 116, 101, 110, 116, 45, 84, 121, 112, 101] = [[112]] ∧
+    v.header.vals sServer = [] := by decide
 
 end Casket.Props.C04
